@@ -181,10 +181,46 @@ def digest(obj) -> str:
     return hashlib.sha1(json.dumps(obj, sort_keys=True, default=str).encode()).hexdigest()[:16]
 
 
+def run_main(main):
+    """Runs a check's main(); an unexpected exception while processing what the implementation returned is not an
+    infrastructure failure: it is recorded as a broken correspondence (the harness could not make sense of the
+    implementation's behaviour) and the run ends with a proper VIOLATION line and evidence file."""
+    import traceback
+
+    try:
+        main()
+    except SystemExit:
+        raise
+    except BaseException as ex:  # pylint: disable=broad-except
+        ck = Check.current
+        tb = traceback.format_exc()
+        if ck is None:
+            print(tb, file=sys.stderr)
+            sys.exit(2)
+        ck.correspondence_break(f"harness could not process the implementation's behaviour: {type(ex).__name__}: {ex}"[:300], {"traceback": tb[-1800:]})
+        ck.finish(rule="(run aborted by an exception while processing the implementation's output; see broken)")
+
+
 class Check:
     """One run of one property's check."""
 
+    current = None
+
+    def guard(self, fn, *a, **kw):
+        """Runs one case; an exception raised while handling the implementation's output becomes a broken correspondence
+        for that case and exploration continues."""
+        import traceback
+
+        try:
+            return fn(*a, **kw)
+        except (SystemExit, KeyboardInterrupt):
+            raise
+        except Exception as ex:  # pylint: disable=broad-except
+            self.correspondence_break(f"harness could not process the implementation's output: {type(ex).__name__}: {ex}"[:300], {"case": (a[1] if len(a) > 1 and isinstance(a[1], dict) else None), "traceback": traceback.format_exc()[-1500:]})
+            return None
+
     def __init__(self, pid: str, argv=None):
+        Check.current = self
         import argparse
 
         ap = argparse.ArgumentParser()
